@@ -1661,7 +1661,7 @@ fn process_stream_search_params<T: Read + Write>(
         i += 1;
     }
     let next_search_idx = if i < stream_msgs_len {
-        Some(i + 1)
+        Some(i) // i is already the next not yet checked stream msg
     } else {
         None
     };
